@@ -142,8 +142,14 @@ def edit(res, rng, api, pat, proj, setter, fault_at, scribble, dup_yield, case, 
             for (ln, tr) in cells:
                 if scribble:
                     s_ln, s_tr = rng.randrange(lines), rng.randrange(tracks)
-                    n2 = make_note(rng, api)
-                    new[s_ln][s_tr] = n2
+                    if rng.random() < 0.5:
+                        n2 = make_note(rng, api)
+                        new[s_ln][s_tr] = n2
+                    else:
+                        # the note object found in the working array is changed IN PLACE (documented as possible)
+                        n2 = new[s_ln][s_tr]
+                        n2.vel = (n2.vel + 1 + rng.randrange(100)) % 130
+                        n2.val = rng.randrange(65536)
                     expected[s_ln][s_tr] = n2.raw_data
                 if fault_at is not None and counter["n"] == fault_at:
                     raise fault_type(f"yield {counter['n']}")
